@@ -862,7 +862,7 @@ def run(ctx):
                 h = hashlib.sha1(case.encode()).hexdigest()[:8]
                 d = {"kind": kind, "harness_case": case if len(case) < 20000 else case[:20000]}
                 d.update(detail)
-                C.violation(ctx, "case-" + h, d, no_failing_input=not mon)
+                C.violation(ctx, "case-%s-%d" % (h, nviol), d, no_failing_input=not mon)
     # pairs of answers for the same offset at two bases
     if aslr:
         for case, _, pairs in res:
